@@ -2,6 +2,7 @@ package sim
 
 import (
 	"fmt"
+	"os"
 	"sort"
 	"strings"
 )
@@ -26,12 +27,19 @@ func (b bits) with(i int) bits {
 	return nb
 }
 
+// key is canonical: trailing all-zero words are dropped, nothing else (an
+// earlier version trimmed the characters '0' and '.' from the right of the
+// hex rendering, so that {4} = "10." and {0} = "1." collided).
 func (b bits) key() string {
+	n := len(b)
+	for n > 0 && b[n-1] == 0 {
+		n--
+	}
 	var sb strings.Builder
-	for _, w := range b {
+	for _, w := range b[:n] {
 		fmt.Fprintf(&sb, "%x.", w)
 	}
-	return strings.TrimRight(sb.String(), "0.")
+	return sb.String()
 }
 
 func (b bits) list() []int {
@@ -162,6 +170,15 @@ func (c *Chain) Observe(win int, obsKey string, must []int) string {
 		return fmt.Sprintf("reader content %s is not the abstract index after any atomic application of in-flight batches %v (returned, must be included: %v) to %v",
 			obsKey, fl, must, cs)
 	}
+	if p := os.Getenv("BSIM_CHAINDBG"); p != "" { // debugging aid: explanations after every observation, appended to the named file
+		if f, err := os.OpenFile(p, os.O_APPEND|os.O_CREATE|os.O_WRONLY, 0644); err == nil {
+			fmt.Fprintf(f, "CHAIN w%d obs=%s must=%v inflight=%v\n", win, obsKey, must, ids)
+			for _, cd := range next {
+				fmt.Fprintf(f, "   cand %s applied=%v\n", cd.m.Key(), cd.applied.list())
+			}
+			f.Close()
+		}
+	}
 	c.cands = next
 	// batches applied in every explanation are no longer in flight
 	for _, n := range ids {
@@ -184,3 +201,18 @@ func (c *Chain) Current() *Model { return c.cands[0].m }
 
 // Unique reports whether the explanation is unique.
 func (c *Chain) Unique() bool { return len(c.cands) == 1 }
+
+func init() {
+	// the explanation search relies on distinct batch sets having distinct keys
+	seen := map[string]int{}
+	for i := 0; i < 200; i++ {
+		k := bits(nil).with(i).key()
+		if j, dup := seen[k]; dup {
+			panic(fmt.Sprintf("bits.key collision between {%d} and {%d}", j, i))
+		}
+		seen[k] = i
+	}
+	if bits(nil).with(3).with(70).key() == bits(nil).with(70).key() || (bits{5, 0, 0}).key() != (bits{5}).key() {
+		panic("bits.key is not canonical")
+	}
+}
